@@ -4,7 +4,7 @@ TIER=${1:-quick}
 cd "$(dirname "$0")/.."
 for id in C01 C02 C03 C04 C05 C06 C07 C08 C09 C10 C11 C12 C13 C14 C15 C16 C17 C18 C19 C20; do
   s=$(date +%s)
-  out=$(./vcheck $id --tier $TIER 2>&1 | grep -v "^LOG\|^main\|Warning")
+  out=$(VERIF_PROGRESS=1 ./vcheck $id --tier $TIER 2>&1 | grep -v "^LOG\|^main\|Warning")
   rc=$?
   echo "== $id exit=$(echo "$out" | grep -c '^VIOLATION')v $(( $(date +%s) - s ))s :: $(echo "$out" | grep -E "^$id tier" )"
   echo "$out" | grep -E "INCONCLUSIVE|^  [a-z].*: (Inconclusive|Unsupported|vacuous|time limit)|KNOWN-FINDING|did not reproduce" | head -5
